@@ -123,7 +123,12 @@ def classify(inst, parsed, rc, prop):
             out["reasons"].append("%s: %s (bound too small or construct unsupported)" % (r["property"], r["desc"]))
             continue
         tags = [t for t in r["tags"] if t != "VAC"]
-        if tags and prop not in tags:
+        if not tags and "/kverif/" in str(r["loc"].get("file", "")):
+            # an untagged failure located in the harness sources (overflow / index in oracle code) is a
+            # mistake of the machinery, never a verdict about /repo
+            out["reasons"].append("harness-internal check failed: %s @%s:%s" % (r["desc"], str(r["loc"].get("file", ""))[-24:], r["loc"].get("line", "")))
+            continue
+        if tags and prop not in tags and "FR" not in tags:
             out["notes"].append(r)
         else:
             out["failed"].append(r)
